@@ -1,1 +1,56 @@
-From TB Require Import Base.
+(** C02 - every piece whose data is present on disk is recovered into the export tree.
+    Statements only.  Hypotheses of the statement: the run is fault-free (every candidate read
+    answers) and the witnesses stay in place (scan files are never written - C03; a torrent's own
+    export files only ever receive correct bytes - C01). *)
+From TB Require Import Base Decimal BencodeModel TorrentModel TorrentProofs PathModel FsModel SolverModel FinderModel RunModel
+                       SolverProofs RunProofs FsProofs FaultProofs PreludeProofs TableProofs FinderProofs SearchProofs PresentProofs Generated GeneratedObligations.
+From Coq Require Import Permutation Sorted.
+Local Open Scope N_scope.
+
+(** Index: every registered file of the declared length is represented in the candidate list -
+    by itself or by another name of the same inode (hard-link pruning keeps one path per inode) -
+    whatever iteration order the hash map had; and the list contains registered files only. *)
+Theorem C02_candidates_complete ix e ns p id l :
+  e_pad e = false -> nodes_of ix (e_len e) = Some ns -> In (p, id) ns ->
+  searches_for ix e = Ok (Some l) -> exists p', In p' l /\ In (p', id) ns.
+Proof. exact (searches_complete ix e ns p id l). Qed.
+
+Theorem C02_candidates_sound ix e ns l p :
+  e_pad e = false -> nodes_of ix (e_len e) = Some ns -> searches_for ix e = Ok (Some l) -> In p l -> exists id, In (p, id) ns.
+Proof. exact (searches_sound ix e ns l p). Qed.
+
+(** Per segment, content de-duplication keeps a representative of every distinct byte string read:
+    if every segment has some readable candidate holding the torrent's bytes (padding = zeros,
+    empty segments need nothing), a combination yielding the piece's bytes exists in the cache. *)
+Theorem C02_witnesses_give_combination content ans segs c : cache_of ans segs = Some c ->
+  Forall (fun s => e_pad (ps_entry s) = false -> ps_len s <> 0 ->
+            exists cands w, e_searches (ps_entry s) = Some cands /\ In w cands /\ ans w (ps_off s) (ps_len s) = Some (seg_bytes content s)) segs ->
+  Forall (pad_zero content) segs ->
+  exists combo, picks combo c /\ map snd combo = map (seg_bytes content) segs.
+Proof. exact (witnesses_give_combo content ans segs c). Qed.
+
+(** The combination search is exhaustive: if some combination hashes to the piece hash, one is found. *)
+Theorem C02_search_exhaustive H hash c pre combo : picks combo c ->
+  beq (H (concat (map snd (pre ++ combo)))) hash = true -> find_combo H hash c pre <> None.
+Proof. exact (find_combo_complete H hash c pre combo). Qed.
+
+(** Hence a multi-file piece whose data is available succeeds, and every non-padding segment that
+    is not sourced from its own export file is written: create directories, open (no truncate),
+    set the declared length, write the torrent's bytes of the segment at the segment's offset. *)
+Theorem C02_available_piece_recovered H content ans pc c combo : cache_of ans (w_segs pc) = Some c -> w_segs pc <> [] ->
+  wf_segs content (w_segs pc) -> cr H content pc -> picks combo c -> map snd combo = map (seg_bytes content) (w_segs pc) ->
+  H (piece_bytes content pc) = w_hash pc ->
+  exists srcs, length srcs = length (w_segs pc) /\
+    eval ans (multi_prog H pc) = (concat (map (fun ss => seg_ops content (fst ss) (snd ss)) (combine (w_segs pc) srcs)), Success).
+Proof. exact (multi_available_success H content ans pc c combo). Qed.
+
+(** A piece is rejected only when some non-padding, non-empty segment has no same-length candidate. *)
+Theorem C02_rejection_only_without_candidates pc : rejected pc = false -> Forall has_candidates (w_segs pc).
+Proof. exact (rejected_false pc). Qed.
+
+Print Assumptions C02_candidates_complete.
+Print Assumptions C02_candidates_sound.
+Print Assumptions C02_witnesses_give_combination.
+Print Assumptions C02_search_exhaustive.
+Print Assumptions C02_available_piece_recovered.
+Print Assumptions C02_rejection_only_without_candidates.
